@@ -953,6 +953,8 @@ macro_rules! suite_row {
             (3, 0x7778) => Some(Box::new(Sx::<crate::probe::ProbeAead24, HkdfSha512, $kemty>(PhantomData)) as Box<dyn SuiteOps>),
             (1, 0x7779) => Some(Box::new(Sx::<crate::probe::ProbeAead8, HkdfSha256, $kemty>(PhantomData)) as Box<dyn SuiteOps>),
             (3, 0x7779) => Some(Box::new(Sx::<crate::probe::ProbeAead8, HkdfSha512, $kemty>(PhantomData)) as Box<dyn SuiteOps>),
+            (1, 0x777A) => Some(Box::new(Sx::<crate::probe::ProbeAead13, HkdfSha256, $kemty>(PhantomData)) as Box<dyn SuiteOps>),
+            (3, 0x777A) => Some(Box::new(Sx::<crate::probe::ProbeAead13, HkdfSha512, $kemty>(PhantomData)) as Box<dyn SuiteOps>),
             _ => None,
         }
     };
